@@ -27,3 +27,4 @@ def run(ck):
     funcs.results_through_funnel(ck, "C02.R7")
     pipeline.store_pipeline(ck, "C01.R2", want_bounds=False)
     fresh.no_class_state_writes(ck, "C20.R7")
+    flags.sticky_and_ownership(ck, "C20.R3")
